@@ -292,6 +292,78 @@ def judge_random(ctx, case, resp):
     return judge_history(ctx, case, resp, "random")
 
 
+# ---- part: a workspace created over a directory (it loads and deploys what it finds), then a history ------------------------------
+
+STARTUP_TAGS = ["A", "D", "E", "F", "G"]      # pairwise disjoint keys: the order in which the directory is read does not matter
+
+
+class SortedModel(WR.Model):
+    """the stored list compared as a set of keys: the order of the models loaded from a directory is the directory's"""
+
+    def snapshot(self):
+        s = WR.Model.snapshot(self)
+        s["list"] = sorted(s["list"])
+        return s
+
+
+def gen_startup(src):
+    load = src.sample(STARTUP_TAGS, src.int(0, len(STARTUP_TAGS)))
+    files = []
+    for i, t in enumerate(load):
+        sub = src.weighted([(5, ""), (2, "sub/"), (1, "a/b c/")])
+        files.append(["%sm%d_%s.dmn" % (sub, i, t), t])
+    junk = []
+    if src.bool(0.4):
+        junk.append(["notes.txt", "B"])                 # not a model file: left alone whatever it holds
+    if src.bool(0.3):
+        junk.append(["broken.dmn", None])               # a model file that is not well-formed XML: skipped, the others are loaded
+    if src.bool(0.2):
+        junk.append(["dmn", "C"])                       # a file merely named dmn
+    ops = gen_random(src)["ops"][:src.int(0, 12)]
+    return {"files": files, "junk": junk, "ops": ops}
+
+
+def reqs_startup(case):
+    files = [[p, WM.XML[t]] for p, t in case["files"]] + [[p, WM.XML[t] if t else "<definitions"] for p, t in case["junk"]]
+    reqs = history_requests(case["ops"], False, True)
+    reqs[0] = {"op": "ws", "w": "new", "files": files}
+    return reqs
+
+
+def judge_startup(ctx, case, resp):
+    ops = case["ops"]
+    try:
+        steps = read_history(ops, False, True, resp)
+    except (Unreadable, IndexError, KeyError, TypeError) as e:
+        return Fail("C17/driver", "workspace over a directory %r, history %s: %s" % (case["files"], show_ops(ops), e))
+    for rec in steps:
+        rec["snapshot"] = dict(rec["snapshot"], list=sorted(rec["snapshot"]["list"]))
+    ctx.note(key=canon(case), nontrivial=len(case["files"]) >= 2, labels=["startup", "startup/files-%d" % len(case["files"])]
+             + ["startup/junk:" + p for p, _ in case["junk"]] + (["startup/unbuildable-model"] if any(t == "E" for _, t in case["files"]) else []),
+             sample={"files": [p for p, _ in case["files"] + case["junk"]], "history": show_ops(ops), "loaded": steps[0]["snapshot"]})
+    best = None
+    for reading in ("exact", "either"):
+        m = SortedModel(WR.NODEV, reading)
+        for _, t in case["files"]:
+            m.apply(["add", t])
+        m.apply(["deploy"])
+        bad = None
+        for i, op in enumerate([None] + list(ops)):
+            exp = ["ok"] if op is None else m.apply(op)
+            d = differences(steps[i], exp, m)
+            if d:
+                bad = (i, d)
+                break
+        if bad is None:
+            return None
+        if best is None or bad[0] > best[0]:
+            best = bad
+    i, d = best
+    what = "the new workspace" if i == 0 else "step %d %s" % (i, show_ops([ops[i - 1]]))
+    return Fail("C17/startup/" + d[0][0], "workspace created over a directory holding %s, then %s: at %s: %s" % (
+        [p for p, _ in case["files"] + case["junk"]], show_ops(ops), what, "; ".join(t for _, t in d)))
+
+
 def reqs_same(case):
     return history_requests(case["a"] + [case["op"]], True, False) + history_requests(case["b"] + [case["op"]], True, False)
 
@@ -341,6 +413,7 @@ def setup(ctx):
     ctx.p_bfs = ctx.register(Part("bfs", None, reqs_bfs, judge_bfs))
     ctx.p_same = ctx.register(Part("samestate", None, reqs_same, judge_same))
     ctx.p_random = ctx.register(Part("random", gen_random, reqs_random, judge_random))
+    ctx.p_startup = ctx.register(Part("startup", gen_startup, reqs_startup, judge_startup))
     # the same histories through the definitions / evaluate endpoints of the HTTP service (server/src/server.rs is one of this property's
     # anchors: what the endpoints do with the keys before they reach the workspace belongs to the history); generator, protocol and
     # reference are C18's
@@ -421,6 +494,8 @@ def run(ctx):
     if ctx.stop():
         return
     ctx.forall(ctx.p_random, ctx.scale(1500, 200000), batch=40)
+    if not ctx.stop():
+        ctx.forall(ctx.p_startup, ctx.scale(1500, 100000), batch=20)
     if not ctx.stop():
         ctx.forall(ctx.p_http, ctx.scale(1500, 100000), batch=1)
 
